@@ -2137,6 +2137,11 @@ func (m *repoManager) findMatch(kvv kvVersions, v dvid.VersionID) (*storage.KeyV
 		case 0:
 			return nil, 0, nil
 		case 1:
+			// Use the one surviving match, which need not be the last one found.
+			for fv := range foundVs {
+				foundV = fv
+				foundKV = kvv[fv].kv
+			}
 			if foundKV.K == nil {
 				return nil, 0, fmt.Errorf("found nil key in ascending version path for kv: %v", foundKV)
 			}
